@@ -48,6 +48,20 @@ var suite = suites.MustFind("Ed25519")
 
 const svcName = "VerifC15Stream"
 
+// Further registrations of the same streaming service under long names (onet puts
+// no limit on a service name; it is the first segment of the websocket path). How
+// a stream ends must not depend on what the service is called: a scenario with
+// Svc = k > 0 runs all its sessions against svcNames[k]. Lengths 64, 100, 125, 256.
+var svcNames = []string{svcName, longName(64), longName(100), longName(125), longName(256)}
+
+func longName(n int) string {
+	s := svcName + "_"
+	for i := 0; len(s) < n; i++ {
+		s += string(rune('a' + i%26))
+	}
+	return s
+}
+
 // Req is the client's request: Chan names the service channel the handler
 // answers on, Fail makes the handler return an error, Block makes it wait for the
 // driver before it returns, Share makes it hand out the session-wide stop channel
@@ -87,6 +101,7 @@ type scenario struct {
 	Onet    []bool `json:"onet,omitempty"` // session uses onet.Client instead of a raw gorilla connection
 	Ops     []op   `json:"ops"`
 	Cleanup bool   `json:"cleanup"` // at the end the service closes every channel it still has open
+	Svc     int    `json:"svc,omitempty"` // index into svcNames: the registration the sessions talk to
 }
 
 type event struct {
@@ -301,6 +316,7 @@ type child struct {
 	srv  *onet.Server
 	lt   *onet.LocalTest
 	url  string
+	hp   string
 	base int // census before the scenario
 }
 
@@ -314,6 +330,7 @@ func (c *child) start() bool {
 	}
 	hp := c.srv.ServerIdentity.Address.Host() + ":" + strconv.Itoa(port+1)
 	c.url = "ws://" + hp + "/" + svcName + "/Req"
+	c.hp = hp
 	// reached only if the websocket port answers
 	for try := 0; try < 100; try++ {
 		conn, err := net.DialTimeout("tcp", hp, time.Second)
@@ -372,11 +389,15 @@ func (c *child) runScenario(sc *scenario) endInfo {
 		mk(i, sc.NChan)
 	}
 	isOnet := func(i int) bool { return i < len(sc.Onet) && sc.Onet[i] }
+	scName := svcName
+	if sc.Svc > 0 && sc.Svc < len(svcNames) {
+		scName = svcNames[sc.Svc]
+	}
 
 	sendReq := func(i int, r *Req) error {
 		if isOnet(i) {
 			if cl[i].onetc == nil {
-				cl[i].onetc = onet.NewClientKeep(suite, svcName)
+				cl[i].onetc = onet.NewClientKeep(suite, scName)
 			}
 			conn, err := cl[i].onetc.Stream(c.srv.ServerIdentity, r)
 			if err == nil {
@@ -395,7 +416,7 @@ func (c *child) runScenario(sc *scenario) endInfo {
 			return true
 		}
 		d := &websocket.Dialer{HandshakeTimeout: 5 * time.Second}
-		conn, _, err := d.Dial(c.url, nil)
+		conn, _, err := d.Dial("ws://"+c.hp+"/"+scName+"/Req", nil)
 		if err != nil {
 			return false
 		}
@@ -824,8 +845,10 @@ func childMain() {
 	log.SetDebugVisible(0)
 	log.OutputToBuf()
 	w = &world{out: bufio.NewWriter(os.Stdout), sess: map[int64]*sess{}}
-	if _, err := onet.RegisterNewService(svcName, newService); err != nil {
-		os.Exit(3)
+	for _, name := range svcNames {
+		if _, err := onet.RegisterNewService(name, newService); err != nil {
+			os.Exit(3)
+		}
 	}
 	c := &child{}
 	if !c.start() {
